@@ -147,7 +147,7 @@ func (x *Exec) stmt(s ast.Stmt, st *St, fr *Frame, k func(*St)) {
 	case *ast.SendStmt:
 		x.sendStmt(n, st, fr, k)
 	case *ast.GoStmt:
-		oos("go statement at %s (goroutines are not modelled)", x.W.pos(n.Pos()))
+		x.goStmt(n, st, fr, k)
 	default:
 		oos("unsupported statement %T at %s", s, x.W.pos(s.Pos()))
 	}
@@ -651,6 +651,15 @@ func (x *Exec) fieldWriteEffect(se *ast.SelectorExpr, sel *types.Selection, f *F
 func (x *Exec) callEffect(call *ast.CallExpr, f *Frame, st *St, depth int, bind map[types.Object]ast.Expr,
 	pureLoc func(ast.Expr, *Frame) *Term, addLoc func(string, *Term), scan func([]ast.Node, *Frame, int, map[types.Object]ast.Expr)) {
 	fun := ast.Unparen(call.Fun)
+	if depth == 0 && x.C != nil && !f.inlined {
+		for _, h := range x.C.Afters {
+			if h.Callee == calleeName(call) {
+				if g, ok := x.W.GhostVars[h.Var]; ok {
+					addLoc(g.Key, nil)
+				}
+			}
+		}
+	}
 	var obj *types.Func
 	var recvExpr ast.Expr
 	switch fn := fun.(type) {
@@ -861,8 +870,12 @@ func (x *Exec) loopContract(fr *Frame, s ast.Stmt) (*Contract, string) {
 		return c, key
 	}
 	if i := strings.Index(fr.fi.Key, "["); i >= 0 && x.inst != "" {
-		// loop of a generic function: the template contract carries $T
-		base := fmt.Sprintf("%s#%d", fr.fi.Key[:i], ord)
+		// loop of a generic function (or of a closure in it): the template contract carries $T
+		fk := fr.fi.Key[:i]
+		if j := strings.Index(fr.fi.Key, "]"); j > i {
+			fk += fr.fi.Key[j+1:]
+		}
+		base := fmt.Sprintf("%s#%d", fk, ord)
 		if t, ok := x.W.CS.ByKey[base]; ok {
 			c := instantiateContract(t, x.inst, x.W.CS)
 			x.W.CS.ByKey[key] = c
